@@ -256,12 +256,10 @@ def gd_aggregation(args):
                 out[i, j] = ops.ssqrt(ops.Sum([(x - y) * (x - y) for x, y in zip(p, q)]))
         return out
 
-    class _Dist(object):
-        cdist = staticmethod(s_cdist)
-
-    class _Spatial(object):
-        distance = _Dist
-
+    # everything that is not modelled is forwarded to the real scipy.spatial (on proxies that ends as 'unsupported',
+    # i.e. inconclusive -- never as an AttributeError of the stub)
+    _Dist = stubs.Shim(real_spatial.distance, cdist=s_cdist)
+    _Spatial = stubs.Shim(real_spatial, distance=_Dist)
     stubs.install((Q, 'spatial', _Spatial))
 
     def body(ctx):
@@ -289,6 +287,14 @@ def gd_smoke(args):
         ctx.check('gd-zero-on-reference-points', abs(float(Q.gd(ref, comp))) > 1e-12)
         comp2 = [(0.0, 2.0), (1.0, 0.0)]
         ctx.check('gd-mean-nearest-distance', abs(float(Q.gd(ref, comp2)) - 0.5) > 1e-12)
+        # size thresholds (concrete as well): reference fronts of 11, 12, 40 and 150 points, few computed points
+        for nref in (11, 12, 40, 150):
+            front = [(i / (nref - 1.0), 1.0 - i / (nref - 1.0)) for i in range(nref)]
+            sub = [front[1], front[nref // 2], front[-2]]
+            ctx.check('gd-zero-on-a-subset-of-a-large-reference-front(%d)' % nref, abs(float(Q.gd(front, sub))) > 1e-12)
+            off = [(x, y + 0.25) for x, y in sub] + [(2.0, 0.0)]
+            exp = sum(min(math.hypot(cx - rx, cy - ry) for rx, ry in front) for cx, cy in off) / len(off)
+            ctx.check('gd-mean-nearest-distance-large-reference-front(%d)' % nref, abs(float(Q.gd(front, off)) - exp) > 1e-9)
     return body
 
 
